@@ -247,7 +247,7 @@ def gen_grammar(seed, big):
     """C09: well-formed tags parse to exactly their name and attributes; quoted values are opaque"""
     rnd = random.Random(seed + 3)
     out = []
-    values = ['v', 'a b', 'x=y', "it's", 'say "hi"', 'line\nbreak', 'skip', 'unwrap-block', '<', '', ' padded ', 'あ=い']
+    values = ['v', 'a b', 'x=y', "it's", 'say "hi"', 'line\nbreak', 'skip', 'unwrap-block', '<', '', ' padded ', 'あ=い', 'C:\\legacy\\', 'a\\', '\\', 'x\\y']
     seps = [' ', '  ', '\n', '\n  ', ' \n ']
     for _ in range(400 if big else 150):
         name = rnd.choice(['tag', 'time-limited', 'a', 'x-y', 'タグ'])
@@ -457,6 +457,79 @@ def gen_dedent(seed, big):
     return out
 
 
+def gen_dedent_nested(seed, big):
+    """C12 at nesting depth 1..3: regular documents (every unwrap body is indented one unit deeper than its tag, wrapper
+    lines at tag level), with default-strategy ready elements before the blocks and inside the bodies (so that an
+    enclosing block is not the first marker of its level). Every surviving line must come out with its indentation
+    reduced by one unit per enclosing unwrapped block and its text intact, in order."""
+    rnd = random.Random(seed + 11)
+    out = []
+    for _ in range(500 if big else 160):
+        unit = rnd.choice(['  ', '    ', '\t'])
+        cnt = [0]
+        def text(ind, k, src, exp):
+            cnt[0] += 1
+            tx = rnd.choice(['x();', 'これ', 'y = 2; // é', 'b("📌");']) + str(cnt[0])
+            src.append(unit * ind + tx)
+            exp.append(unit * (ind - k) + tx)
+        def removed(ind, src):
+            src.append(unit * ind + f"<{RM} name='f1'>")
+            for _ in range(rnd.randint(0, 2)):
+                cnt[0] += 1
+                src.append(unit * (ind + rnd.randint(0, 1)) + f'old{cnt[0]}();')
+            src.append(unit * ind + f"</{RM}>")
+        def unwrap(ind, k, depth, src, exp):
+            src.append(unit * ind + f"<{RM} name='f1' unwrap-block>")
+            src.append(unit * ind + 'if a {')
+            text(ind + 1, k + 1, src, exp)
+            for _ in range(rnd.randint(0, 3)):
+                c = rnd.random()
+                if c < 0.35 and depth < 3:
+                    unwrap(ind + 1, k + 1, depth + 1, src, exp)
+                elif c < 0.6:
+                    removed(ind + 1, src)
+                text(ind + 1, k + 1, src, exp)
+            src.append(unit * ind + '}')
+            src.append(unit * ind + f"</{RM}>")
+        src, exp = ['q'], ['q']
+        base = rnd.randint(0, 2)
+        if rnd.random() < 0.6:
+            removed(base, src)
+            text(base, 0, src, exp)
+        for _ in range(rnd.randint(1, 2)):
+            unwrap(base, 0, 1, src, exp)
+            text(base, 0, src, exp)
+        source = '\n'.join(src) + ('\n' if rnd.random() < 0.7 else '')
+        def oracle(r, exp=exp, source=source):
+            if not r.get('ok'):
+                return 'clean panicked: ' + str(r.get('panic'))[:160]
+            got = [l for l in r['output'].split('\n') if l.strip()]
+            if got != exp:
+                k = next((i for i, (a, b) in enumerate(zip(got, exp)) if a != b), min(len(got), len(exp)))
+                return f'nested unwrap: surviving line {k} is {got[k] if k < len(got) else None!r}, expected {exp[k] if k < len(exp) else None!r} (source {source!r})'
+            return None
+        out.append((dict(cfg(), mode='clean', source=source, ds='<', de='>'), oracle))
+    return out
+
+
+def gen_unwrap_lines_intact(seed, big):
+    """C14 inside an unwrapped body: the documents of gen_dedent (inner lines indented below / at / above the first inner
+    line), oracle = every surviving line, trimmed, appears verbatim and in order (only blanks are ever consumed)"""
+    out = []
+    for req, _ in gen_dedent(seed + 100, big):
+        src = req['source']
+        want = [l.strip() for l in src.split('\n') if l.strip() and 'unwrap-block' not in l and l.strip() not in ('if a {', '}', f'</{RM}>')]
+        def oracle(r, want=want, src=src):
+            if not r.get('ok'):
+                return 'clean panicked: ' + str(r.get('panic'))[:160]
+            got = [l.strip() for l in r['output'].split('\n') if l.strip()]
+            if got != want:
+                return f'unwrapped body: trimmed surviving lines are {got}, expected {want} (source {src!r})'
+            return None
+        out.append((req, oracle))
+    return out
+
+
 def gen_blanklines(seed, big):
     """C13: block-style removal with b blank lines before and a after leaves a+b-[a>0 and b>0] blank lines; lines intact"""
     out = []
@@ -629,7 +702,7 @@ def gen_pairing(seed, big):
 GENERATORS = {
     'C01': [gen_totality], 'C04': [gen_identity, gen_identity_unwrappable], 'C07': [gen_partition], 'C08': [gen_recognition], 'C05': [gen_expiry], 'C06': [gen_marker],
     'C09': [gen_grammar], 'C10': [gen_pairing], 'C02': [gen_blocks, gen_inline], 'C03': [gen_blocks, gen_inline], 'C11': [gen_blocks], 'C17': [gen_list_all],
-    'C12': [gen_dedent], 'C13': [gen_blanklines, gen_lines_intact], 'C14': [gen_inline], 'C15': [gen_list_regions],
+    'C12': [gen_dedent, gen_dedent_nested], 'C13': [gen_blanklines, gen_lines_intact], 'C14': [gen_inline, gen_dedent_nested, gen_unwrap_lines_intact], 'C15': [gen_list_regions],
 }
 
 
